@@ -134,6 +134,16 @@ contract(FI + "::InnateImmunity.check", "C10",
                                                        "self.patterns[j].severity < self.severity_threshold)",
          })
 
+# the inflammation bookkeeping InnateImmunity.check assumes total: its own totality obligation (only the user's callback may raise)
+shape("InnateImmunityE", patterns="list:obj:TLRPattern", validators="list:callback", severity_threshold="int", inflammation_decay="timedelta",
+      on_inflammation="opt:callback", silent="bool", inflammation_state="obj:InflammationState", _check_count="int", _block_count="int")
+shape("InflammationState", level="enum:InflammationLevel", triggered_at="opt:datetime", trigger_count="int", cooldown_until="opt:datetime", recent_alerts="list:str")
+contract(FI + "::InnateImmunity._evaluate_inflammation", "C10", self_type="InnateImmunityE",
+         params={"patterns": "list:obj:TLRPattern", "errors": "list:str"}, raises=[],
+         callbacks={"self.on_inflammation": {"raises": (), "returns": "any"}},
+         loops={"for p in patterns": {"invariant": ["True"]}},
+         ensures={})
+
 # ---------------------------------------------------------------- shipped structural validators: total, and a rejection carries a reason
 shape("JSONValidator", max_depth="int", max_size="int")
 shape("LengthValidator", min_length="int", max_length="int")
